@@ -209,9 +209,11 @@ func execPure(c Case) (v ev.Verdict) {
 
 var patAtoms = []string{"a", "b", "/", ".", "*", "**", "?", "\\*", "\\?", "\\\\", "\\[", "\\]", "+", "(", ")", "|", "{", "}", "^", "$", " ", "é", "a", "b", "/", "*", "ab",
 	// text that is regexp syntax when it is not quoted: counted repetitions, flags, classes
-	"1", "2", ",", "{2}", "{1,2}", "{1,}", "a{2}", "(?i)", "(?s)", ".*", "a+", "(?:", "(?P<n>"}
+	"1", "2", ",", "{2}", "{1,2}", "{1,}", "a{2}", "(?i)", "(?s)", ".*", "a+", "(?:", "(?P<n>",
+	// letters whose UTF-8 encodings share their first byte(s)
+	"è", "ë", "é", "résumé", "résumè", "日", "旧", "€", "₭"}
 var badAtoms = []string{"\\a", "\\.", "\\", "\\pL", "\\d", "\\A", "\\z", "\\Q", "\\{", "\\1"}
-var pathAtoms = []string{"a", "b", "/", ".", "*", "?", "\\", "[", "]", "+", "(", ")", "|", "$", "^", "{", "é", "a", "b", "/", "ab", " ", "1", "2", ",", "}", "{2}", "{1,2}", "aa", "A", "B", "(?i)", "d", "pL", "Q"}
+var pathAtoms = []string{"a", "b", "/", ".", "*", "?", "\\", "[", "]", "+", "(", ")", "|", "$", "^", "{", "é", "a", "b", "/", "ab", " ", "1", "2", ",", "}", "{2}", "{1,2}", "aa", "A", "B", "(?i)", "d", "pL", "Q", "è", "ë", "résumé", "résumè", "日", "旧", "€"}
 
 func genPattern(t *rapid.T, allowBad bool) string {
 	n := rapid.IntRange(0, 6).Draw(t, "plen")
